@@ -173,7 +173,14 @@ fn val(rng: &mut R, class: usize) -> Scalar {
         0 => Scalar::zero(),
         1 => Scalar::one(),
         2 => q_minus_1(),
-        3 => Scalar::from(2 + (rng.next_u32() % 100_000) as u64),
+        // "small": values that fit a machine word, including the top of the 63- and 64-bit ranges
+        3 => match rng.next_u32() % 6 {
+            0 => Scalar::from(1u64 << 63),
+            1 => Scalar::from(u64::MAX),
+            2 => Scalar::from(i64::MAX as u64),
+            3 => Scalar::from((1u64 << 63) + (rng.next_u32() as u64)),
+            _ => Scalar::from(2 + (rng.next_u32() % 100_000) as u64),
+        },
         _ => Scalar::random(&mut *rng),
     }
 }
@@ -195,6 +202,7 @@ fn chosen_cs(rng: &mut R, k: usize) -> Scalar {
     match k % 6 {
         0 => Scalar::zero(),
         1 => q_minus_1(),
+        2 => Scalar::from((1u64 << 63) | (rng.next_u64() >> 1)),
         _ => Scalar::random(&mut *rng),
     }
 }
